@@ -159,6 +159,9 @@ def check_c06(tier, seed):
                   {"fidelity": handle_fidelity(flines, "C06")})
 
 
+FAULT_KINDS = ["", "unexpected_eof", "", "would_block", "", "timed_out", "", "invalid_data", "", "write_zero", ""]
+
+
 def fault_histories(workloads, cls, tier, rng, label, kind=None):
     hs = []
     for wi, w in enumerate(workloads):
@@ -174,7 +177,10 @@ def fault_histories(workloads, cls, tier, rng, label, kind=None):
         elif len(ks) > limit:
             ks = fault_positions(n, bounds, limit)
         for k in ks:
-            hs.append(dict(w, id=f"{label}{wi}_k{k}", faults=dict({"class": cls, "at": [k]}, **({"kind": kind} if kind else {}))))
+            # the kind of the injected error varies with the position (Other most often; UnexpectedEof, WouldBlock, TimedOut,
+            # InvalidData, WriteZero now and then): any failure is a failure, whatever kind it carries
+            kk = kind if kind is not None else FAULT_KINDS[k % len(FAULT_KINDS)]
+            hs.append(dict(w, id=f"{label}{wi}_k{k}", faults=dict({"class": cls, "at": [k]}, **({"kind": kk} if kk else {}))))
         if tier == "thorough" and not w.get("fault_ops"):
             for _ in range(min(2000, n * 3)):
                 k1, k2 = sorted(rng.sample(range(1, n + 1), 2))
